@@ -10,7 +10,7 @@ SIZES = {"quick": 1500, "thorough": 40000}
 BATCH = 1000
 RULE = ("a first `load` of 1-4 circuit-breaking rules (all three strategies, 1-3 breakers on the main resource, sometimes a second "
         "resource; bucket counts {0,1,2,5,10}, statistic intervals that do / do not divide, ProbeNum in {0,1,2,3}, MinRequestAmount "
-        "0..10, thresholds on a 1/1000 grid incl. 0 and 1, retry timeouts 1..3000 ms, ~4% invalid rules) followed by 40-260 ops built from "
+        "0..10, thresholds on a 1/1000 grid incl. 0 and 1, retry timeouts 1..12345 ms incl. non-round ones (7, 997, 1001, 1009, 3333), MaxAllowedRtMs up to 120000 with response times of minutes, requests exactly at deadline-1/deadline/deadline+1, ~4% invalid rules) followed by 40-260 ops built from "
         "phases incl. reloads (`load` / `loadres` mid-history: rules kept, modified stat-reusably or not, dropped, added, split, duplicated, reordered), ramps (bad completions first, good ones lift the window to the minimum), window roll-overs after good-only buckets, full recoveries (trip, deadline, ProbeNum good probes), "
         "error completions with varying dynamic error type (plain, wrapped, *base.BlockError of a really blocked entry, nil-typed) and reporting "
         "path (TraceError, Exit(WithError), SetError), clears / invalid loads of rule-less resources sprinkled in (~4% of the observation points), "
@@ -29,7 +29,7 @@ def fb(x):
 
 def gen_rule(rng, res):
     kind = rng.choice([0, 1, 2])
-    retry = rng.choice([1, 5, 20, 50, 100, 100, 1000, 3000])
+    retry = rng.choice([1, 5, 20, 50, 100, 100, 1000, 3000, 7, 997, 1001, 1009, 3333, 12345])
     minreq = rng.choice([0, 1, 1, 2, 3, 5, 10])
     buckets = rng.choice([0, 1, 2, 5, 10])
     if rng.random() < 0.75:
@@ -37,6 +37,8 @@ def gen_rule(rng, res):
     else:
         stat = rng.choice([7, 33, 101, 1001, 250, 15])          # some do not divide => one bucket
     maxrt = rng.choice([0, 1, 5, 10, 50])
+    if rng.random() < 0.12:
+        maxrt = rng.choice([59999, 60000, 60001, 120000])      # response times of minutes: nothing may cap the measured rt
     if kind == 2:
         thr = rng.choice([0, 1, 1, 2, 2, 3, 5, 2.5, 0.5])
     else:
@@ -274,6 +276,26 @@ class G:
             self.request(True, strict=True)
         self.obs(1.0)
 
+    def edge(self):
+        """trip on a fresh window, then requests exactly at deadline-1, deadline, deadline+1 (deadline = time of the
+        tripping completion + RetryTimeoutMs, non-round timeouts included)"""
+        rng = self.rng
+        r = rng.choice([x for x in self.rules if x["res"] == RES])
+        self.clock(r["stat"] + max(x["retry"] for x in self.rules) + 1)
+        for _ in range(max(1, r["minreq"])):
+            self.request(True, strict=True)
+        self.obs(1.0)
+        d = self.last_bad + r["retry"] - 1 - self.now
+        if d > 0:
+            self.clock(d)
+        for k in range(3):
+            i = self.entry(RES)
+            self.obs(0.7)
+            if rng.random() < 0.5:
+                self.exit(i, rng.random() < 0.5)
+            self.clock(1)
+        self.obs(1.0)
+
     def recover(self):
         """trip, wait for the deadline, then max(1, ProbeNum) good probes one after the other: a full recovery (repeated
         recoveries in one case exercise the probe counter across half-open phases)"""
@@ -297,7 +319,9 @@ class G:
             return self.recover()
         if k < 0.28:
             return self.reload()
-        k = (k - 0.28) / 0.72
+        if k < 0.34:
+            return self.edge()
+        k = (k - 0.34) / 0.66
         if k < 0.30:
             # burst with a given share of bad completions
             p = rng.choice([0.0, 0.3, 0.5, 0.8, 1.0])
